@@ -223,14 +223,14 @@ Proof. unfold ends_with, name_cmp. apply rprefix_convex. Qed.
    (not the apex, holds NS) and the group's owner is at or below that name;
    otherwise its RRsets are selected by the per-owner rule.  On input sorted in
    canonical name order the two agree. *)
-Definition covered (apex : name) (seen : list (list zrec)) (g : list zrec) : bool :=
+Definition below_earlier_cut (apex : name) (seen : list (list zrec)) (g : list zrec) : bool :=
   existsb (fun c => is_zone_cut apex c && ends_with (group_owner g) (group_owner c)) seen.
 
 Fixpoint spec_groups (apex : name) (k : nat) (seen gs : list (list zrec)) : list zrec :=
   match gs with
   | [] => []
   | g :: rest =>
-      (if covered apex seen g then []
+      (if below_earlier_cut apex seen g then []
        else select_rrsets (is_zone_cut apex g) (group_owner g) apex k g)
       ++ spec_groups apex k (seen ++ [g]) rest
   end.
@@ -266,16 +266,16 @@ Proof.
     intros a [<-|Ha]; [|apply H1; exact Ha]. rewrite Forall_forall in Hall. apply Hall. apply in_or_app. right. left. reflexivity.
 Qed.
 
-Lemma covered_snoc apex seen g h :
-  covered apex (seen ++ [g]) h =
-  covered apex seen h || (is_zone_cut apex g && ends_with (group_owner h) (group_owner g)).
-Proof. unfold covered. rewrite existsb_app. cbn [existsb]. rewrite orb_false_r. reflexivity. Qed.
+Lemma below_earlier_cut_snoc apex seen g h :
+  below_earlier_cut apex (seen ++ [g]) h =
+  below_earlier_cut apex seen h || (is_zone_cut apex g && ends_with (group_owner h) (group_owner g)).
+Proof. unfold below_earlier_cut. rewrite existsb_app. cbn [existsb]. rewrite orb_false_r. reflexivity. Qed.
 
 Lemma sign_groups_is_spec apex k gs : forall cut seen,
   Forall (fun g => g <> [] /\ ends_with (group_owner g) apex = true) gs ->
   StronglySorted nle (map group_owner (seen ++ gs)) ->
   (forall c, cut = Some c -> In c (map group_owner seen)) ->
-  (forall h, In h gs -> covered apex seen h =
+  (forall h, In h gs -> below_earlier_cut apex seen h =
                         match cut with Some c => ends_with (group_owner h) c | None => false end) ->
   sign_groups apex k cut gs = spec_groups apex k seen gs.
 Proof.
@@ -291,7 +291,7 @@ Proof.
   - (* below the current cut *)
     cbn [app]. apply IH; try assumption.
     + intros c Hcc. rewrite map_app. apply in_or_app. left. apply Hc. exact Hcc.
-    + intros h Hh. rewrite covered_snoc, (Hinv h (or_intror Hh)). cbn [group_owner].
+    + intros h Hh. rewrite below_earlier_cut_snoc, (Hinv h (or_intror Hh)). cbn [group_owner].
       destruct cut as [c|]; [|discriminate].
       destruct (ends_with (group_owner h) c) eqn:E; [reflexivity|]. cbn [orb].
       match goal with |- ?b = false => destruct b eqn:E3; [|reflexivity] end.
@@ -302,7 +302,7 @@ Proof.
     + intros c Hcc. rewrite map_app. apply in_or_app. right. cbn [map group_owner].
       revert Hcc. match goal with |- (if ?b then _ else _) = _ -> _ => destruct b end; [|discriminate].
       intros Hcc. injection Hcc as <-. left. reflexivity.
-    + intros h Hh. rewrite covered_snoc, (Hinv h (or_intror Hh)). cbn [group_owner].
+    + intros h Hh. rewrite below_earlier_cut_snoc, (Hinv h (or_intror Hh)). cbn [group_owner].
       assert (Hnot : match cut with Some c => ends_with (group_owner h) c | None => false end = false).
       { destruct cut as [c|]; [|reflexivity].
         destruct (ends_with (group_owner h) c) eqn:E; [|reflexivity].
